@@ -65,6 +65,7 @@ import (
 	"fmt"
 	"io"
 	"os"
+	"sync"
 
 	"github.com/stackus/goht"
 )
@@ -86,8 +87,9 @@ type jobT struct {
 	Plan planT
 }
 type inT struct {
-	Envs []envT
-	Jobs []jobT
+	Envs       []envT
+	Jobs       []jobT
+	Goroutines int
 }
 type resT struct {
 	Name   string
@@ -98,6 +100,12 @@ type resT struct {
 }
 
 var errWriter = errors.New("verif: writer failed")
+var concurrent bool
+
+type ctxKeyT int
+
+// all renders share one parent context (as requests of one server would)
+var parent = context.WithValue(context.Background(), ctxKeyT(1), "shared")
 var failing = map[string]bool{}
 
 type recWriter struct {
@@ -127,13 +135,15 @@ func run(j jobT, e envT) (r resT) {
 			r.Panic = fmt.Sprint(p)
 		}
 	}()
-	failing = map[string]bool{}
-	for _, f := range e.Fail {
-		failing[f] = true
+	if !concurrent {
+		failing = map[string]bool{}
+		for _, f := range e.Fail {
+			failing[f] = true
+		}
 	}
 	w := &recWriter{plan: j.Plan}
 	t := templates[j.Name](e)
-	err := t.Render(context.Background(), w)
+	err := t.Render(parent, w)
 	if err != nil {
 		r.Err = err.Error()
 		if errors.Is(err, errWriter) {
@@ -156,8 +166,32 @@ func main() {
 	}
 	out := bufio.NewWriter(os.Stdout)
 	enc := json.NewEncoder(out)
-	for _, j := range in.Jobs {
-		enc.Encode(run(j, in.Envs[j.Env]))
+	if in.Goroutines > 1 {
+		concurrent = true
+		res := make([]resT, len(in.Jobs))
+		var wg sync.WaitGroup
+		next := make(chan int, len(in.Jobs))
+		for i := range in.Jobs {
+			next <- i
+		}
+		close(next)
+		for g := 0; g < in.Goroutines; g++ {
+			wg.Add(1)
+			go func() {
+				defer wg.Done()
+				for i := range next {
+					res[i] = run(in.Jobs[i], in.Envs[in.Jobs[i].Env])
+				}
+			}()
+		}
+		wg.Wait()
+		for _, r := range res {
+			enc.Encode(r)
+		}
+	} else {
+		for _, j := range in.Jobs {
+			enc.Encode(run(j, in.Envs[j.Env]))
+		}
 	}
 	out.Flush()
 }
@@ -200,6 +234,11 @@ func (b *Batch) Close() {
 // Build compiles src with the real compiler, gofmt-s it and builds a runner around it.
 // stage tells how far it got: parse | generate | gofmt | gobuild | ok
 func Build(src string, names []string, repo string) (b *Batch, stage string, detail string) {
+	return BuildOpt(src, names, repo, false)
+}
+
+// BuildOpt: race = build the runner with the race detector.
+func BuildOpt(src string, names []string, repo string, race bool) (b *Batch, stage string, detail string) {
 	t, err := compiler.ParseString(src)
 	if err != nil {
 		return nil, "parse", err.Error()
@@ -230,9 +269,15 @@ func Build(src string, names []string, repo string) (b *Batch, stage string, det
 	mb.WriteString("}\n")
 	os.WriteFile(filepath.Join(dir, "main.go"), []byte(mb.String()), 0644)
 	t0 := time.Now()
-	cmd := exec.Command("go", "build", "-o", "b", ".")
+	args := []string{"build", "-o", "b", "."}
+	cgo := "CGO_ENABLED=0"
+	if race {
+		args = []string{"build", "-race", "-o", "b", "."}
+		cgo = "CGO_ENABLED=1"
+	}
+	cmd := exec.Command("go", args...)
 	cmd.Dir = dir
-	cmd.Env = append(os.Environ(), "GOFLAGS=-mod=mod", "GOPROXY=off", "GOSUMDB=off", "GOTOOLCHAIN=local", "CGO_ENABLED=0")
+	cmd.Env = append(os.Environ(), "GOFLAGS=-mod=mod", "GOPROXY=off", "GOSUMDB=off", "GOTOOLCHAIN=local", cgo)
 	if o, err := cmd.CombinedOutput(); err != nil {
 		return b, "gobuild", string(o)
 	}
@@ -242,14 +287,20 @@ func Build(src string, names []string, repo string) (b *Batch, stage string, det
 
 // Run executes the jobs; a job that kills the process is reported through the error.
 func (b *Batch) Run(envs []Env, jobs []Job, timeout time.Duration) ([]Result, error) {
-	in, _ := json.Marshal(map[string]any{"Envs": envs, "Jobs": jobs})
+	r, _, err := b.RunConc(envs, jobs, timeout, 1)
+	return r, err
+}
+
+// RunConc runs the jobs from g goroutines sharing one parent context; returns the stderr too (race reports).
+func (b *Batch) RunConc(envs []Env, jobs []Job, timeout time.Duration, g int) ([]Result, string, error) {
+	in, _ := json.Marshal(map[string]any{"Envs": envs, "Jobs": jobs, "Goroutines": g})
 	cmd := exec.Command(filepath.Join(b.Dir, "b"))
 	cmd.Stdin = bytes.NewReader(in)
 	var out, errb bytes.Buffer
 	cmd.Stdout = &out
 	cmd.Stderr = &errb
 	if err := cmd.Start(); err != nil {
-		return nil, err
+		return nil, "", err
 	}
 	done := make(chan error, 1)
 	go func() { done <- cmd.Wait() }()
@@ -270,9 +321,9 @@ func (b *Batch) Run(envs []Env, jobs []Job, timeout time.Duration) ([]Result, er
 		res = append(res, r)
 	}
 	if werr != nil {
-		return res, fmt.Errorf("%v: %s", werr, clip(errb.String(), 600))
+		return res, errb.String(), fmt.Errorf("%v: %s", werr, clip(errb.String(), 600))
 	}
-	return res, nil
+	return res, errb.String(), nil
 }
 
 func clip(s string, n int) string {
